@@ -1,6 +1,6 @@
 CONSTANTS
   Mode = "prefix"
-  MaxLead = 4
+  MaxLead = 5
 INIT Init
 NEXT Stutter
 INVARIANTS PrefixProps Emit
